@@ -328,24 +328,27 @@ built when the file has no skip attribute. -/
 def loadedMod (p : Path) (items : List Decl) : Mod := ⟨items, false, .real p⟩
 
 /-- modules.rs:528-575 `find_mods_outside_of_ast`, over the collected path strings. Threads the
-source map. -/
+source map.  A target that exists but does not parse (in this model: a directory) is a `ParseError`
+of the whole resolution, not a candidate that is passed over. -/
 def findModsOutsideOfAst (fs : FS) (dirPath : Path) (cur : FileName) :
-    List (List Char) → List Path → List (Path × Ownership × Mod) × List Path
-  | [], parsed => ([], parsed)
+    List (List Char) → List Path → Except ErrKind (List (Path × Ownership × Mod) × List Path)
+  | [], parsed => .ok ([], parsed)
   | s :: rest, parsed =>
     let actual := join dirPath s
     if !pathExists fs actual then findModsOutsideOfAst fs dirPath cur rest parsed
     else if actual ∈ parsed then
-      let (r, parsed') := findModsOutsideOfAst fs dirPath cur rest parsed
-      ((actual, .owned none, declClone cur) :: r, parsed')
+      match findModsOutsideOfAst fs dirPath cur rest parsed with
+      | .error e => .error e
+      | .ok (r, parsed') => .ok ((actual, .owned none, declClone cur) :: r, parsed')
     else
       match parseFileAsModule fs actual with
       | .ok true _ => findModsOutsideOfAst fs dirPath cur rest (actual :: parsed)
       | .ok false items =>
-        let (r, parsed') := findModsOutsideOfAst fs dirPath cur rest (actual :: parsed)
-        ((actual, .owned none, loadedMod actual items) :: r, parsed')
-      | .parseError => findModsOutsideOfAst fs dirPath cur rest parsed
-      | .missing => findModsOutsideOfAst fs dirPath cur rest parsed
+        match findModsOutsideOfAst fs dirPath cur rest (actual :: parsed) with
+        | .error e => .error e
+        | .ok (r, parsed') => .ok ((actual, .owned none, loadedMod actual items) :: r, parsed')
+      | .parseError => .error .parse
+      | .missing => .error .pathattr
 
 /-- modules.rs:357-498 `find_external_module`. Returns the result and the new source map. -/
 def findExternalModule (fs : FS) (dir : Directory) (parsed : List Path) (cur : FileName)
@@ -364,8 +367,9 @@ def findExternalModule (fs : FS) (dir : Directory) (parsed : List Path) (cur : F
       | .parseError => (.error .parse, parsed)
       | .missing => (.error .pathattr, parsed)
   | none =>
-    let (modsOutsideAst, parsed) :=
-      findModsOutsideOfAst fs dir.path cur (pathVisitorPaths attrs) parsed
+    match findModsOutsideOfAst fs dir.path cur (pathVisitorPaths attrs) parsed with
+    | .error e => (.error e, parsed)
+    | .ok (modsOutsideAst, parsed) =>
     match defaultSubmodPath fs name relative dir.path with
     | .ok (filePath, dirOwnership) =>
       let outsideModsEmpty := modsOutsideAst.isEmpty
